@@ -209,7 +209,7 @@ def path_to_script(nodes, path):
             w = lbl[1]
             if w in ("go", "goinf"):
                 n_go += 1
-                slot_id[((n_go - 1) % 2) + 1] = n_go
+                slot_id[((n_go - 1) % 3) + 1] = n_go
             if w in ("stopwake", "newgamelock"):
                 sched.append("M:" + w)
                 continue
